@@ -486,10 +486,13 @@ def c03_record_problems(cell, tv, run_h, iters, n_runners):
             if tot > iters:
                 bad('sum-gt-one', 'level %r winner+runners-up = %d votes '
                     'of %d' % (lv, tot, iters))
-            if n_runners + 1 >= len(sibs) and tot != iters and \
+            if (n_runners + 1 >= len(sibs) or len(ra) < n_runners) and \
+                    tot != iters and \
                     not any(c == 'prob-not-whole' for c, _ in out):
-                bad('sum-ne-one', 'level %r all siblings could be listed '
-                    'but votes sum to %d of %d' % (lv, tot, iters))
+                bad('sum-ne-one', 'level %r: the runner-up list is not full '
+                    '(%d of %d) / all siblings could be listed, but winner + '
+                    'runners-up hold %d of %d votes'
+                    % (lv, len(ra), n_runners, tot, iters))
             for cc in rc:
                 if cc is None or not (-1 - REL <= cc <= 1 + REL):
                     bad('corr-range', 'level %r runner-up correlation %r'
